@@ -27,6 +27,14 @@ Definition mon_eds_gauges (v : eds_metric_view) (obs : list series) : bool :=
   fam_value_is "eds_status_ignored_unresponsive_nodes" (ev_ignored v) obs &&
   fam_value_is "eds_status_canary_activated" (match ev_canary v with Some _ => 1 | None => 0 end) obs &&
   fam_value_is "eds_status_canary_node_number" (match ev_canary v with Some (_, n) => n | None => 0 end) obs &&
+  (* paused = a canary is recorded and the Canary-Paused condition is TRUE (a left-over False condition is not a pause);
+     the series names the reason only then *)
+  fam_value_is "eds_status_canary_paused" (match ev_canary v, ev_canary_paused v with Some _, Some _ => 1 | _, _ => 0 end) obs &&
+  match lookup_series "eds_status_canary_paused" obs with
+  | Some s => Bool.eqb (existsb (fun kv => String.eqb (fst kv) "paused_reason") (s_labels s))
+                       (match ev_canary v, ev_canary_paused v with Some _, Some _ => true | _, _ => false end)
+  | None => false end &&
+  fam_value_is "eds_created" (ev_created v) obs &&
   fam_value_is "eds_status_rolling_update_paused" (b2z (ev_state_paused v)) obs &&
   fam_value_is "eds_status_rollout_frozen" (b2z (ev_state_frozen v)) obs.
 
@@ -36,7 +44,8 @@ Definition mon_ers_gauges (v : ers_metric_view) (obs : list series) : bool :=
   fam_value_is "ers_status_ready" (rv_ready v) obs &&
   fam_value_is "ers_status_available" (rv_available v) obs &&
   fam_value_is "ers_status_ignored_unresponsive_nodes" (rv_ignored v) obs &&
-  fam_value_is "ers_status_canary_failed" (b2z (rv_canary_failed v)) obs.
+  fam_value_is "ers_status_canary_failed" (b2z (rv_canary_failed v)) obs &&
+  fam_value_is "ers_created" (rv_created v) obs.
 
 (** Every observed series carries the object's namespace and name. *)
 Definition mon_identity (ns nm : string) (obs : list series) : bool :=
